@@ -8,7 +8,7 @@ import mdgen as M
 
 def gen_history(rng, n):
     """an evolving honest chain interleaved with adversarial offers; returns (T0, offers, tags)"""
-    keys, th, ver = (0, 1), 1, 1
+    keys, th, ver = (0, 1), rng.choice((1, 2, 2)), 1
     T0 = M.envelope(M.root_md(ver, keys, th), keys)
     honest = [T0]
     offers, tags = [], []
@@ -42,9 +42,23 @@ def gen_history(rng, n):
             oldkeys = [PUBHEX.index(k) for k in old["signed"]["delegations"]["root"]["pubkeys"]]
             U = M.envelope(M.root_md(cur_ver + 1, tuple(oldkeys), 1), tuple(oldkeys))
             offers.append(U); tags.append("revoked-keys")
-        elif r < 0.92:
+        elif r < 0.86:
             U = M.envelope(M.root_md(cur_ver + 1, cur_keys, cur_th), cur_keys, mode="raw")
             offers.append(U); tags.append("raw-mode-sigs")
+        elif r < 0.90:
+            # a holder of ONE current key lists its signature under several notations of that key and appoints itself
+            one = cur_keys[0]
+            sps = rng.sample(M.RESPELL, 3)
+            U = M.respell_signatures(M.envelope(M.root_md(cur_ver + 1, (one,), 1), (one,)), one, sps)
+            offers.append(U); tags.append("one-key-many-spellings")
+        elif r < 0.93:
+            # an outsider's self-signed root that is not even well formed (bad date, missing field, wrong types): an ERROR is not an acceptance
+            others = tuple(i for i in range(4) if i not in cur_keys) or (3,)
+            bad = rng.choice([dict(expiration="2034-01-01"), dict(timestamp=5), dict(metadata_spec_version=Ellipsis), dict(version="%d" % (cur_ver + 1))])
+            U = M.envelope(M.root_md(bad.pop("version", cur_ver + 1), others, 1, **bad), others)
+            if rng.random() < 0.3:
+                U["signatures"]["not a key"] = "not an entry"
+            offers.append(U); tags.append("malformed-self-appointed")
         else:
             U = M.envelope(M.root_md(cur_ver, cur_keys, cur_th, expiration="2040-01-01T00:00:00Z"), cur_keys)
             offers.append(U); tags.append("same-version")
@@ -77,6 +91,15 @@ def run(ctx):
                                                 "reason": "verdicts or final root change when the trusted root is written and reloaded between offers"}))
     ctx.streams.append({"stream": "same histories with write_metadata_to_file/load between steps", "cases": len(pcases),
                         "distinct_nontrivial": len(pcases), "impl_outcomes": {}, "unmodelled": 0, "mismatches": 0, "oracle_violations": 0, "wall_s": 0})
+    # a client driven by the command line (exit status 0 = install the offer): same verdicts, same final root
+    ccases = [c["w"].replace("root_history", "root_history_cli", 1) for c in cases]
+    cimpl = implrun.run_impl(ccases)
+    for c, w, (io, _) in zip(cases, ccases, cimpl):
+        if io != mdl_by[c["w"].replace("root_history", "root_history_persist", 1)]:
+            ctx.violations.append(("property", {"stream": "client driven by `verify-metadata trusted offer && cp offer trusted`", "case": w, "impl": io[:500],
+                                                "reason": "a client that installs an offer when the verify-metadata command exits with status 0 ends with other verdicts / another trusted root than the update rule allows"}))
+    ctx.streams.append({"stream": "same histories through the command line client (exit status 0 installs the offer)", "cases": len(ccases),
+                        "distinct_nontrivial": len(ccases), "impl_outcomes": {}, "unmodelled": 0, "mismatches": 0, "oracle_violations": 0, "wall_s": 0})
     # every offer re-evaluated in a fresh process against the state the history had reached: verdict must not depend on the prefix
     fresh = []
     for (T0, offers, tags), (io, _) in zip(hist, impl):
